@@ -20,12 +20,32 @@ class Truth:
         self.rain, self.level, self.et, self.events = rain, level, et, events
         self.s, self.j = s, j
         self.removed = set()
+        self.fine = 1                 # the level logger samples `fine` times per rain step (on the chords of the truth)
+        self.removed_fine = set()     # with fine > 1: dropped samples, numbered in logger steps
+
+    @classmethod
+    def from_description(cls, d):
+        tr = cls(d["dt"], d["t0"], d["sy"], d["Z"], d["rain"], d["level"], d["et"], d["events"], d["s"], d["j"])
+        tr.removed = set(d.get("removed", []))
+        tr.fine = int(d.get("fine", 1))
+        tr.removed_fine = set(d.get("removed_fine", []))
+        return tr
 
     def rows(self):
         dt, t0 = self.dt, self.t0
         n = len(self.level)
         rain = [(t0 + i * dt, v) for i, v in enumerate(self.rain)]
         et = [(t0 + i * dt, self.et[i % len(self.et)]) for i in range(n + 2)]
+        if self.fine > 1:
+            f = self.fine
+            level = []
+            for m in range((n - 1) * f + 1):
+                i, k = divmod(m, f)
+                if m in self.removed_fine or i in self.removed:
+                    continue
+                v = self.level[i] if k == 0 else self.level[i] + (self.level[i + 1] - self.level[i]) * k / f
+                level.append((t0 + m * dt // f, v))
+            return rain, et, level
         level = [(t0 + i * dt, v) for i, v in enumerate(self.level) if i not in self.removed]
         return rain, et, level
 
@@ -61,8 +81,23 @@ class Truth:
             self.removed = {i, i + 1}
         return self
 
+    def add_fine_gap(self, rng):
+        """the level logger samples two or three times per rain step, and its outage begins and ends BETWEEN rain
+        instants: the last sample before the hole and the first after it are off the rain lattice"""
+        n = len(self.level)
+        f = rng.choice([2, 3]) if self.dt % 6 == 0 else 2
+        if self.dt % f:
+            return self
+        dry = [i for i in range(3, n - 5) if all(self.rain[q] == 0.0 for q in range(i - 1, i + 4))]
+        if dry:
+            i = rng.choice(dry)
+            self.fine = f
+            # keep sample i*f + 1 (off the lattice), drop through the lattice instants i+1 and i+2, resume at (i+2)*f + f - 1
+            self.removed_fine = set(range(i * f + 2, (i + 2) * f + f - 1))
+        return self
+
     def describe(self):
-        return {"removed": sorted(self.removed), "dt": self.dt, "t0": self.t0, "sy": self.sy, "Z": self.Z[:60], "rain": self.rain, "level": self.level,
+        return {"removed": sorted(self.removed), "fine": self.fine, "removed_fine": sorted(self.removed_fine), "dt": self.dt, "t0": self.t0, "sy": self.sy, "Z": self.Z[:60], "rain": self.rain, "level": self.level,
                 "et": self.et, "events": self.events, "s": self.s, "j": self.j}
 
     def T(self, z):
